@@ -1,6 +1,6 @@
 //@ tu: libxcm/ctl/ctl.c
 //@ enforce: add_attr
-//@ pre-unwind: strcmp.0:9 strcpy.0:97
+//@ pre-unwind: strcmp.0:9
 //@ props: C14
 //@ expect: postcondition>=2 canary=4
 #include "_unit.h"
